@@ -109,6 +109,14 @@ CHECKS.update({
         technique="Lean 4 proof (list layout invariants) + byte-exact script comparison + ledger plays"),
 })
 
+CHECKS.update({
+    "C15": dict(
+        category="proof",
+        text="Lean 4 transition system with one step per critical section of stopper.go, an unbounded list of in-flight calls (RunTask, RunAsyncTask, RunLimitedAsyncTask, RunWorker, AddCloser, WithCancelOnQuiesce/Stop, Quiesce, Stop) and a monotone log; invariants proved by induction over reachability, i.e. for every interleaving and any number of calls: reach_logOk, refused_never_runs, stop_closed_drained, tasks_end_before_stop_closes, phase_order, closers_exactly_once, stop_idempotent, sem_held_iff_running, cancel_fires; the worker clause in the qualified form the code supports (witness late_worker_runs_after_stopped). The real Stopper is driven with settled sequential scripts (state compared with the model) and with gated concurrent schedules whose logs are judged by the Lean predicate logOk.",
+        note="Trusted: Lean kernel; atomicity of each critical section (the mutex), Go channel / WaitGroup semantics. Two recorded limits: a RunWorker issued after stop.Wait() returned still runs (proved witness), and a WaitGroup misuse panic when RunWorker races with the end of Stop (known finding).",
+        technique="Lean 4 proof (inductive invariants over an unbounded-thread transition system) + gated-schedule logs judged by the Lean specification"),
+})
+
 NOT_APPLICABLE = [
     {"property_id": "C14", "reason": "data-race freedom is a property of memory accesses under the Go memory model; no executable Lean model compared on values can exhibit an unsynchronised access (DESIGN.md 5/C14)"},
 ]
